@@ -48,6 +48,7 @@ func (c *ctx) device(seed uint64, chunked bool) *kernel.Device {
 
 type opKind struct {
 	name string
+	cost int  // typical number of yield points (measured on the unchanged tree; scales the preemption quanta)
 	cold bool // usable on a cold fixture (bytes and scalars only)
 	warm bool // usable on a warm fixture
 	// randomised: output is not reproducible (rand == nil); run returns a validity verdict instead
@@ -76,22 +77,22 @@ func init() {
 	P := func() *secp256k1.Point { return secp256k1.NewIdentityPoint() }
 	opKinds = []opKind{
 		// ---------------- ECDSA
-		{name: "Sign(device)", warm: true, run: func(fx *Fixture, o *Op, c *ctx) string {
+		{name: "Sign(device)", cost: 13692, warm: true, run: func(fx *Fixture, o *Op, c *ctx) string {
 			sig, err := pick(fx.privs, o.A).Sign(c.device(o.Seed, o.C%2 == 1), pick(fx.digests, o.B), fx.opts)
 			return fmt.Sprintf("%x/%s", sig, errStr(err))
 		}},
-		{name: "Sign(RFC6979)", warm: true, run: func(fx *Fixture, o *Op, c *ctx) string {
+		{name: "Sign(RFC6979)", cost: 14119, warm: true, run: func(fx *Fixture, o *Op, c *ctx) string {
 			sig, err := pick(fx.privs, o.A).Sign(secec.RFC6979SHA256(), pick(fx.digests, o.B), fx.opts)
 			return fmt.Sprintf("%x/%s", sig, errStr(err))
 		}},
-		{name: "SignRaw(device)", warm: true, run: func(fx *Fixture, o *Op, c *ctx) string {
+		{name: "SignRaw(device)", cost: 9261, warm: true, run: func(fx *Fixture, o *Op, c *ctx) string {
 			r, s, v, err := pick(fx.privs, o.A).SignRaw(c.device(o.Seed, false), pick(fx.digests, o.B))
 			if err != nil {
 				return "err"
 			}
 			return fmt.Sprintf("%x/%x/%d", r.Bytes(), s.Bytes(), v)
 		}},
-		{name: "Sign(rand=nil)", warm: true, run: func(fx *Fixture, o *Op, c *ctx) string {
+		{name: "Sign(rand=nil)", cost: 9262, warm: true, run: func(fx *Fixture, o *Op, c *ctx) string {
 			i := ((o.A % len(fx.privs)) + len(fx.privs)) % len(fx.privs)
 			dg := pick(fx.digests, o.B)
 			r, s, _, err := fx.privs[i].SignRaw(nil, dg)
@@ -101,11 +102,11 @@ func init() {
 			e, _ := ref.DigestToE(dg)
 			return "valid=" + b2s(ref.ECDSAVerify(fx.modelQ[i], e, ref.OS2IP(r.Bytes()), ref.OS2IP(s.Bytes())))
 		}},
-		{name: "Verify(ASN1)", warm: true, run: func(fx *Fixture, o *Op, c *ctx) string {
+		{name: "Verify(ASN1)", cost: 14350, warm: true, run: func(fx *Fixture, o *Op, c *ctx) string {
 			i := o.A
 			return b2s(pick(fx.pubs, o.B).Verify(fx.digests[0], pick(fx.sigASN1, i), nil))
 		}},
-		{name: "Verify(opts)", warm: true, run: func(fx *Fixture, o *Op, c *ctx) string {
+		{name: "Verify(opts)", cost: 14862, warm: true, run: func(fx *Fixture, o *Op, c *ctx) string {
 			var sig []byte
 			switch fx.opts.Encoding {
 			case secec.EncodingASN1:
@@ -117,29 +118,29 @@ func init() {
 			}
 			return b2s(pick(fx.pubs, o.B).Verify(pick(fx.digests, o.C), sig, fx.opts))
 		}},
-		{name: "VerifyRaw", warm: true, run: func(fx *Fixture, o *Op, c *ctx) string {
+		{name: "VerifyRaw", cost: 23865, warm: true, run: func(fx *Fixture, o *Op, c *ctx) string {
 			return b2s(pick(fx.pubs, o.B).VerifyRaw(pick(fx.digests, o.C), pick(fx.sigR, o.A), pick(fx.sigS, o.A)))
 		}},
-		{name: "bitcoin.VerifyASN1", warm: true, run: func(fx *Fixture, o *Op, c *ctx) string {
+		{name: "bitcoin.VerifyASN1", cost: 16803, warm: true, run: func(fx *Fixture, o *Op, c *ctx) string {
 			return b2s(bitcoin.VerifyASN1(pick(fx.pubs, o.B), fx.digests[0], pick(fx.sigBIP66, o.A)))
 		}},
-		{name: "RecoverPublicKey", warm: true, run: func(fx *Fixture, o *Op, c *ctx) string {
+		{name: "RecoverPublicKey", cost: 24484, warm: true, run: func(fx *Fixture, o *Op, c *ctx) string {
 			q, err := secec.RecoverPublicKey(pick(fx.digests, o.C), pick(fx.sigR, o.A), pick(fx.sigS, o.A), pick(fx.sigV, o.A)^byte(o.B&1))
 			if err != nil {
 				return "err"
 			}
 			return hx(q.Bytes())
 		}},
-		{name: "ECDH", warm: true, run: func(fx *Fixture, o *Op, c *ctx) string {
+		{name: "ECDH", cost: 20488, warm: true, run: func(fx *Fixture, o *Op, c *ctx) string {
 			ss, err := pick(fx.privs, o.A).ECDH(pick(fx.pubs, o.B))
 			return fmt.Sprintf("%x/%s", ss, errStr(err))
 		}},
 		// ---------------- Schnorr
-		{name: "SchnorrSign(device)", warm: true, run: func(fx *Fixture, o *Op, c *ctx) string {
+		{name: "SchnorrSign(device)", cost: 17294, warm: true, run: func(fx *Fixture, o *Op, c *ctx) string {
 			sig, err := pick(fx.sprivs, o.A).Sign(c.device(o.Seed, o.C%2 == 1), pick(fx.msgs, o.B), nil)
 			return fmt.Sprintf("%x/%s", sig, errStr(err))
 		}},
-		{name: "SchnorrSign(rand=nil)", warm: true, run: func(fx *Fixture, o *Op, c *ctx) string {
+		{name: "SchnorrSign(rand=nil)", cost: 17295, warm: true, run: func(fx *Fixture, o *Op, c *ctx) string {
 			i := ((o.A % len(fx.sprivs)) + len(fx.sprivs)) % len(fx.sprivs)
 			msg := pick(fx.msgs, o.B)
 			sig, err := fx.sprivs[i].Sign(nil, msg, nil)
@@ -148,20 +149,20 @@ func init() {
 			}
 			return "valid=" + b2s(ref.BIP340Verify(ref.I2OSP32(fx.modelQ[i].X), msg, sig))
 		}},
-		{name: "SchnorrVerify", warm: true, run: func(fx *Fixture, o *Op, c *ctx) string {
+		{name: "SchnorrVerify", cost: 11024, warm: true, run: func(fx *Fixture, o *Op, c *ctx) string {
 			return b2s(pick(fx.spubs, o.B).Verify(pick(fx.msgs, o.C), pick(fx.schSigs, o.A)))
 		}},
 		// ---------------- multiplication on shared operands, private receivers
-		{name: "ScalarMult", warm: true, run: func(fx *Fixture, o *Op, c *ctx) string {
+		{name: "ScalarMult", cost: 20358, warm: true, run: func(fx *Fixture, o *Op, c *ctx) string {
 			return hx(P().ScalarMult(pick(fx.scalars, o.A), pick(fx.points, o.B)).CompressedBytes())
 		}},
-		{name: "ScalarBaseMult", warm: true, cold: true, run: func(fx *Fixture, o *Op, c *ctx) string {
+		{name: "ScalarBaseMult", cost: 8429, warm: true, cold: true, run: func(fx *Fixture, o *Op, c *ctx) string {
 			return hx(P().ScalarBaseMult(pick(fx.scalars, o.A)).CompressedBytes())
 		}},
-		{name: "DoubleScalarMultBasepointVartime", warm: true, run: func(fx *Fixture, o *Op, c *ctx) string {
+		{name: "DoubleScalarMultBasepointVartime", cost: 17530, warm: true, run: func(fx *Fixture, o *Op, c *ctx) string {
 			return hx(P().DoubleScalarMultBasepointVartime(pick(fx.scalars, o.A), pick(fx.scalars, o.C), pick(fx.points, o.B)).CompressedBytes())
 		}},
-		{name: "MultiScalarMult", warm: true, run: func(fx *Fixture, o *Op, c *ctx) string {
+		{name: "MultiScalarMult", cost: 37691, warm: true, run: func(fx *Fixture, o *Op, c *ctx) string {
 			n := 2 + o.C%2
 			var ss []*secp256k1.Scalar
 			var ps []*secp256k1.Point
@@ -175,7 +176,7 @@ func init() {
 			return hx(P().MultiScalarMult(ss, ps).CompressedBytes())
 		}},
 		// ---------------- group law on shared operands, private receivers
-		{name: "Add/Subtract/Double/Negate", warm: true, run: func(fx *Fixture, o *Op, c *ctx) string {
+		{name: "Add/Subtract/Double/Negate", cost: 458, warm: true, run: func(fx *Fixture, o *Op, c *ctx) string {
 			a, b := pick(fx.points, o.A), pick(fx.points, o.B)
 			switch o.C % 6 {
 			case 0:
@@ -192,39 +193,39 @@ func init() {
 				return hx(P().ConditionalSelect(a, b, uint64(o.Seed&1)).UncompressedBytes())
 			}
 		}},
-		{name: "Equal/IsIdentity/IsYOdd", warm: true, run: func(fx *Fixture, o *Op, c *ctx) string {
+		{name: "Equal/IsIdentity/IsYOdd", cost: 490, warm: true, run: func(fx *Fixture, o *Op, c *ctx) string {
 			a, b := pick(fx.points, o.A), pick(fx.points, o.B)
 			return fmt.Sprintf("%d%d%d", a.Equal(b), a.IsIdentity(), a.IsYOdd())
 		}},
-		{name: "Point encoders", warm: true, run: func(fx *Fixture, o *Op, c *ctx) string {
+		{name: "Point encoders", cost: 1116, warm: true, run: func(fx *Fixture, o *Op, c *ctx) string {
 			a := pick(fx.points, o.A)
 			x, err := a.XBytes()
 			return fmt.Sprintf("%x/%x/%x/%s", a.UncompressedBytes(), a.CompressedBytes(), x, errStr(err))
 		}},
-		{name: "NewPointFrom/NewScalarFrom", warm: true, run: func(fx *Fixture, o *Op, c *ctx) string {
+		{name: "NewPointFrom/NewScalarFrom", cost: 409, warm: true, run: func(fx *Fixture, o *Op, c *ctx) string {
 			return fmt.Sprintf("%x/%x", secp256k1.NewPointFrom(pick(fx.points, o.A)).CompressedBytes(), secp256k1.NewScalarFrom(pick(fx.scalars, o.B)).Bytes())
 		}},
 		// ---------------- key encoders and accessors
-		{name: "PublicKey encoders", warm: true, run: func(fx *Fixture, o *Op, c *ctx) string {
+		{name: "PublicKey encoders", cost: 505, warm: true, run: func(fx *Fixture, o *Op, c *ctx) string {
 			k := pick(fx.pubs, o.A)
 			return fmt.Sprintf("%x/%x/%x/%x/%v", k.Bytes(), k.CompressedBytes(), k.ASN1Bytes(), k.Point().CompressedBytes(), k.Equal(pick(fx.pubs, o.B)))
 		}},
-		{name: "PrivateKey accessors", warm: true, run: func(fx *Fixture, o *Op, c *ctx) string {
+		{name: "PrivateKey accessors", cost: 54, warm: true, run: func(fx *Fixture, o *Op, c *ctx) string {
 			k := pick(fx.privs, o.A)
 			pub, _ := k.Public().(*secec.PublicKey)
 			return fmt.Sprintf("%x/%x/%x/%x/%v", k.Bytes(), k.Scalar().Bytes(), k.PublicKey().Bytes(), pub.CompressedBytes(), k.Equal(pick(fx.privs, o.B)))
 		}},
-		{name: "Schnorr key accessors", warm: true, run: func(fx *Fixture, o *Op, c *ctx) string {
+		{name: "Schnorr key accessors", cost: 530, warm: true, run: func(fx *Fixture, o *Op, c *ctx) string {
 			k := pick(fx.sprivs, o.A)
 			p := pick(fx.spubs, o.B)
 			return fmt.Sprintf("%x/%x/%x/%x/%x/%v/%v", k.Bytes(), k.Scalar().Bytes(), k.PublicKey().Bytes(), p.Bytes(), p.Point().CompressedBytes(), k.Equal(pick(fx.sprivs, o.B)), p.Equal(pick(fx.spubs, o.A)))
 		}},
 		// ---------------- derivations that read a shared key / point / scalar
-		{name: "NewSchnorrPrivateKeyFromECDSA", warm: true, run: func(fx *Fixture, o *Op, c *ctx) string {
+		{name: "NewSchnorrPrivateKeyFromECDSA", cost: 85, warm: true, run: func(fx *Fixture, o *Op, c *ctx) string {
 			sk := bitcoin.NewSchnorrPrivateKeyFromECDSA(pick(fx.privs, o.A))
 			return fmt.Sprintf("%x/%x", sk.Bytes(), sk.PublicKey().Bytes())
 		}},
-		{name: "NewSchnorrPublicKeyFromECDSA/FromPoint", warm: true, run: func(fx *Fixture, o *Op, c *ctx) string {
+		{name: "NewSchnorrPublicKeyFromECDSA/FromPoint", cost: 1755, warm: true, run: func(fx *Fixture, o *Op, c *ctx) string {
 			a := bitcoin.NewSchnorrPublicKeyFromECDSA(pick(fx.pubs, o.A))
 			b, err := bitcoin.NewSchnorrPublicKeyFromPoint(pick(fx.points, o.B))
 			if err != nil {
@@ -232,7 +233,7 @@ func init() {
 			}
 			return fmt.Sprintf("%x/%x", a.Bytes(), b.Bytes())
 		}},
-		{name: "NewPublicKeyFromPoint/NewPrivateKeyFromScalar", warm: true, run: func(fx *Fixture, o *Op, c *ctx) string {
+		{name: "NewPublicKeyFromPoint/NewPrivateKeyFromScalar", cost: 7250, warm: true, run: func(fx *Fixture, o *Op, c *ctx) string {
 			out := ""
 			if k, err := secec.NewPublicKeyFromPoint(pick(fx.points, o.A)); err == nil {
 				out += hx(k.CompressedBytes())
@@ -247,13 +248,13 @@ func init() {
 			return out
 		}},
 		// ---------------- scalar reads into private receivers
-		{name: "Scalar reads", warm: true, cold: true, run: func(fx *Fixture, o *Op, c *ctx) string {
+		{name: "Scalar reads", cost: 650, warm: true, cold: true, run: func(fx *Fixture, o *Op, c *ctx) string {
 			a, b := pick(fx.scalars, o.A), pick(fx.scalars, o.B)
 			S := secp256k1.NewScalar
 			return fmt.Sprintf("%x/%d%d%d/%x/%x/%x/%x", a.Bytes(), a.IsZero(), a.IsGreaterThanHalfN(), a.Equal(b),
 				S().Invert(a).Bytes(), S().Multiply(a, b).Bytes(), S().Sum(a, b, a).Bytes(), S().Product(a, b).Bytes())
 		}},
-		{name: "RecoverPoint", warm: true, cold: true, run: func(fx *Fixture, o *Op, c *ctx) string {
+		{name: "RecoverPoint", cost: 625, warm: true, cold: true, run: func(fx *Fixture, o *Op, c *ctx) string {
 			p, err := secp256k1.RecoverPoint(pick(fx.scalars, o.A), byte(o.B%4))
 			if err != nil {
 				return "err"
@@ -261,7 +262,7 @@ func init() {
 			return hx(p.CompressedBytes())
 		}},
 		// ---------------- parsers on shared byte strings
-		{name: "Parsers", warm: true, run: func(fx *Fixture, o *Op, c *ctx) string {
+		{name: "Parsers", cost: 259, warm: true, run: func(fx *Fixture, o *Op, c *ctx) string {
 			out := ""
 			r, s, err := secec.ParseASN1Signature(pick(fx.sigASN1, o.A))
 			if err == nil {
@@ -276,7 +277,7 @@ func init() {
 			_, err4 := secec.NewPublicKey(pick(fx.badBytes, o.C))
 			return out + "/" + errStr(err4)
 		}},
-		{name: "h2c", warm: true, cold: true, run: func(fx *Fixture, o *Op, c *ctx) string {
+		{name: "h2c", cost: 3794, warm: true, cold: true, run: func(fx *Fixture, o *Op, c *ctx) string {
 			var p *secp256k1.Point
 			var err error
 			if o.C%2 == 0 {
@@ -294,7 +295,7 @@ func init() {
 			return first + "/" + hx(p.CompressedBytes())
 		}},
 		// ---------------- remaining public entry points on shared operands
-		{name: "Scalar arithmetic", warm: true, cold: true, run: func(fx *Fixture, o *Op, c *ctx) string {
+		{name: "Scalar arithmetic", cost: 135, warm: true, cold: true, run: func(fx *Fixture, o *Op, c *ctx) string {
 			a, b := pick(fx.scalars, o.A), pick(fx.scalars, o.B)
 			S := secp256k1.NewScalar
 			var raw [32]byte
@@ -303,7 +304,7 @@ func init() {
 			return fmt.Sprintf("%x/%x/%x/%x/%x/%x/%x/%d", S().Add(a, b).Bytes(), S().Subtract(a, b).Bytes(), S().Negate(a).Bytes(), S().Square(a).Bytes(),
 				S().ConditionalNegate(a, uint64(o.C&1)).Bytes(), S().ConditionalSelect(a, b, uint64(o.C>>1&1)).Bytes(), sb.Bytes(), did)
 		}},
-		{name: "SetUniformBytes/NewPointFromCoords/Split", warm: true, run: func(fx *Fixture, o *Op, c *ctx) string {
+		{name: "SetUniformBytes/NewPointFromCoords/Split", cost: 3138, warm: true, run: func(fx *Fixture, o *Op, c *ctx) string {
 			src := append(append([]byte{}, pick(fx.digests, o.A)...), pick(fx.digests, o.A+1)[:16]...)
 			u := P().SetUniformBytes(src)
 			pt := pick(fx.points, o.B)
@@ -318,7 +319,7 @@ func init() {
 			}
 			return fmt.Sprintf("%x/%x/%d/%x", u.CompressedBytes(), xb, yOdd, q.CompressedBytes())
 		}},
-		{name: "Build/Parse signatures", warm: true, run: func(fx *Fixture, o *Op, c *ctx) string {
+		{name: "Build/Parse signatures", cost: 163, warm: true, run: func(fx *Fixture, o *Op, c *ctx) string {
 			r, s, v := pick(fx.sigR, o.A), pick(fx.sigS, o.A), pick(fx.sigV, o.A)
 			a1, a2, a3 := secec.BuildASN1Signature(r, s), secec.BuildCompactSignature(r, s), secec.BuildCompactRecoverableSignature(r, s, v)
 			r2, s2, err := secec.ParseCompactSignature(pick(fx.sigCompact, o.A))
@@ -327,13 +328,13 @@ func init() {
 			}
 			return fmt.Sprintf("%x/%x/%x/%x/%x", a1, a2, a3, r2.Bytes(), s2.Bytes())
 		}},
-		{name: "Sign(crypto.SHA256 opts, crypto.Signer)", warm: true, run: func(fx *Fixture, o *Op, c *ctx) string {
+		{name: "Sign(crypto.SHA256 opts, crypto.Signer)", cost: 33240, warm: true, run: func(fx *Fixture, o *Op, c *ctx) string {
 			var signer crypto.Signer = pick(fx.privs, o.A)
 			sig, err := signer.Sign(c.device(o.Seed, false), pick(fx.digests, o.B), crypto.SHA256)
 			pub, _ := signer.Public().(*secec.PublicKey)
 			return fmt.Sprintf("%x/%s/%v", sig, errStr(err), err == nil && pub.Verify(pick(fx.digests, o.B), sig, nil))
 		}},
-		{name: "NewSchnorrPublicKey(bytes)+Verify/PreHash", warm: true, run: func(fx *Fixture, o *Op, c *ctx) string {
+		{name: "NewSchnorrPublicKey(bytes)+Verify/PreHash", cost: 10599, warm: true, run: func(fx *Fixture, o *Op, c *ctx) string {
 			sp := pick(fx.spubs, o.A)
 			k, err := bitcoin.NewSchnorrPublicKey(sp.Bytes())
 			if err != nil {
@@ -345,7 +346,7 @@ func init() {
 			pk2, _ := signer.Public().(*bitcoin.SchnorrPublicKey)
 			return fmt.Sprintf("%x/%v/%x/%s/%v", k.Bytes(), k.Verify(pick(fx.msgs, o.C), pick(fx.schSigs, o.A)), ph, errStr(err), pk2.Equal(k))
 		}},
-		{name: "GenerateSchnorrKey", cold: true, warm: true, run: func(fx *Fixture, o *Op, c *ctx) string {
+		{name: "GenerateSchnorrKey", cost: 8668, cold: true, warm: true, run: func(fx *Fixture, o *Op, c *ctx) string {
 			k, err := bitcoin.GenerateSchnorrKey()
 			if err != nil {
 				return "err"
@@ -355,7 +356,7 @@ func init() {
 			return "valid=" + b2s(derr == nil && !q.Inf && want.X.Cmp(q.X) == 0)
 		}},
 		// ---------------- large batches (a different code path may be taken above some size)
-		{name: "MultiScalarMult(large batch)", warm: true, run: func(fx *Fixture, o *Op, c *ctx) string {
+		{name: "MultiScalarMult(large batch)", cost: 561503, warm: true, run: func(fx *Fixture, o *Op, c *ctx) string {
 			n := []int{65, 70, 100, 33}[((o.C%4)+4)%4]
 			ss := make([]*secp256k1.Scalar, 0, n)
 			ps := make([]*secp256k1.Point, 0, n)
@@ -369,16 +370,16 @@ func init() {
 			return hx(P().MultiScalarMult(ss, ps).CompressedBytes())
 		}},
 		// ---------------- failing entropy source in the middle of concurrent use
-		{name: "Sign(failing device)", warm: true, run: func(fx *Fixture, o *Op, c *ctx) string {
+		{name: "Sign(failing device)", cost: 57, warm: true, run: func(fx *Fixture, o *Op, c *ctx) string {
 			sig, err := pick(fx.privs, o.A).Sign(c.failing(o.Seed), pick(fx.digests, o.B), fx.opts)
 			return fmt.Sprintf("%x/%s", sig, errStr(err))
 		}},
-		{name: "SchnorrSign(failing device)", warm: true, run: func(fx *Fixture, o *Op, c *ctx) string {
+		{name: "SchnorrSign(failing device)", cost: 4, warm: true, run: func(fx *Fixture, o *Op, c *ctx) string {
 			sig, err := pick(fx.sprivs, o.A).Sign(c.failing(o.Seed), pick(fx.msgs, o.B), nil)
 			return fmt.Sprintf("%x/%s", sig, errStr(err))
 		}},
 		// ---------------- a recovered key is used after other verifications ran
-		{name: "RecoverPublicKey+use", warm: true, run: func(fx *Fixture, o *Op, c *ctx) string {
+		{name: "RecoverPublicKey+use", cost: 93183, warm: true, run: func(fx *Fixture, o *Op, c *ctx) string {
 			i := ((o.A % len(fx.sigR)) + len(fx.sigR)) % len(fx.sigR)
 			q, err := secec.RecoverPublicKey(fx.digests[0], fx.sigR[i], fx.sigS[i], fx.sigV[i])
 			if err != nil {
@@ -394,7 +395,7 @@ func init() {
 			return "valid=" + b2s(ok && same && other && eerr == nil)
 		}},
 		// ---------------- cold-start composites: construct from shared bytes, then use
-		{name: "cold:NewPrivateKey+Sign(RFC6979)", cold: true, warm: true, run: func(fx *Fixture, o *Op, c *ctx) string {
+		{name: "cold:NewPrivateKey+Sign(RFC6979)", cost: 21613, cold: true, warm: true, run: func(fx *Fixture, o *Op, c *ctx) string {
 			k, err := secec.NewPrivateKey(pick(fx.privEncs, o.A))
 			if err != nil {
 				return "err"
@@ -402,14 +403,14 @@ func init() {
 			sig, err := k.Sign(secec.RFC6979SHA256(), pick(fx.digests, o.B), &secec.ECDSAOptions{Hash: crypto.SHA256, Encoding: secec.EncodingCompactRecoverable, SelfVerify: o.C%2 == 1})
 			return fmt.Sprintf("%x/%x/%s", k.PublicKey().CompressedBytes(), sig, errStr(err))
 		}},
-		{name: "cold:NewPublicKey+encoders", cold: true, warm: true, run: func(fx *Fixture, o *Op, c *ctx) string {
+		{name: "cold:NewPublicKey+encoders", cost: 735, cold: true, warm: true, run: func(fx *Fixture, o *Op, c *ctx) string {
 			k, err := secec.NewPublicKey(pick(fx.pubEncs, o.A))
 			if err != nil {
 				return "err"
 			}
 			return fmt.Sprintf("%x/%x", k.Bytes(), k.CompressedBytes())
 		}},
-		{name: "cold:NewSchnorrPrivateKey+Sign", cold: true, warm: true, run: func(fx *Fixture, o *Op, c *ctx) string {
+		{name: "cold:NewSchnorrPrivateKey+Sign", cost: 25935, cold: true, warm: true, run: func(fx *Fixture, o *Op, c *ctx) string {
 			k, err := bitcoin.NewSchnorrPrivateKey(pick(fx.privEncs, o.A))
 			if err != nil {
 				return "err"
@@ -417,14 +418,14 @@ func init() {
 			sig, err := k.Sign(c.device(o.Seed, false), pick(fx.msgs, o.B), nil)
 			return fmt.Sprintf("%x/%x/%s", k.PublicKey().Bytes(), sig, errStr(err))
 		}},
-		{name: "cold:NewPointFromBytes+ScalarMult", cold: true, warm: true, run: func(fx *Fixture, o *Op, c *ctx) string {
+		{name: "cold:NewPointFromBytes+ScalarMult", cost: 18867, cold: true, warm: true, run: func(fx *Fixture, o *Op, c *ctx) string {
 			p, err := secp256k1.NewPointFromBytes(pick(fx.pubEncs, o.A))
 			if err != nil {
 				return "err"
 			}
 			return hx(P().ScalarMult(pick(fx.scalars, o.B), p).CompressedBytes())
 		}},
-		{name: "cold:GenerateKey", cold: true, warm: true, run: func(fx *Fixture, o *Op, c *ctx) string {
+		{name: "cold:GenerateKey", cost: 8594, cold: true, warm: true, run: func(fx *Fixture, o *Op, c *ctx) string {
 			k, err := secec.GenerateKey()
 			if err != nil {
 				return "err"
@@ -433,7 +434,7 @@ func init() {
 			q, derr := ref.Decode(k.PublicKey().Bytes())
 			return "valid=" + b2s(derr == nil && !q.Inf && q.Eq(ref.BaseMul(ref.OS2IP(k.Bytes()))))
 		}},
-		{name: "cold:ECDH", cold: true, warm: true, run: func(fx *Fixture, o *Op, c *ctx) string {
+		{name: "cold:ECDH", cost: 28256, cold: true, warm: true, run: func(fx *Fixture, o *Op, c *ctx) string {
 			k, err := secec.NewPrivateKey(pick(fx.privEncs, o.A))
 			if err != nil {
 				return "err"
